@@ -475,6 +475,12 @@ func guardListing(c *Ctx) {
 							bad = append(bad, "listing format is "+exprStr(v.Args[0])+" (expected \"%s %s\")")
 						}
 						first := core.Unparen(v.Args[1])
+						// the upper-cased method may be kept in a local of the outer loop: upper := strings.ToUpper(method)
+						if fo := core.ObjOf(info, first); fo != nil && fo != mKey {
+							if defs := c.P.Locals(fi).Defs[fo]; len(defs) == 1 && defs[0].Kind == core.DefAssign && defs[0].Pos > outer.Pos() && defs[0].Pos < v.Pos() {
+								first = core.Unparen(defs[0].Expr)
+							}
+						}
 						if call, ok := first.(*ast.CallExpr); ok && len(call.Args) == 1 {
 							first = core.Unparen(call.Args[0])
 						}
